@@ -35,7 +35,7 @@ props = [json.loads(l) for l in open(os.path.join(VERIF, "properties.jsonl"))]
 checks, na = [], []
 for p in props:
     pid = p["id"]
-    if os.path.exists(os.path.join(VERIF, "coq", "Properties", pid + ".v")):
+    if ("Properties/%s.v" % pid) in open(os.path.join(VERIF, "coq", "_CoqProject")).read().split():
         checks.append({
             "property_id": pid,
             "quick_cmd": "./check %s --tier quick" % pid,
